@@ -333,9 +333,29 @@ impl<'r, 'c, 's, W: Write> Serializer for DatumSerializer<'r, 'c, 's, W> {
 				self.serialize_str(variant)
 			}
 			SchemaNode::Union(union) => {
-				self.serialize_union_unnamed(union, UnionVariantLookupKey::UnitVariant, |ser| {
-					ser.serialize_unit_variant(name, variant_index, variant)
-				})
+				let by_type = union
+					.per_type_lookup
+					.unnamed(UnionVariantLookupKey::UnitVariant);
+				let is_symbol_of_enum_variant = matches!(
+					by_type,
+					Some((_, SchemaNode::Enum(e))) if e.per_name_lookup.contains_key(variant)
+				);
+				match union.per_type_lookup.named(variant) {
+					// A unit variant named after the null variant of the union (that is how the
+					// deserializer reports it) designates that variant, even if the union also
+					// has a variant that could hold the variant name as a string
+					Some((discriminant, SchemaNode::Null)) if !is_symbol_of_enum_variant => self
+						.state
+						.writer
+						.write_varint(discriminant)
+						.map(|_| ())
+						.map_err(SerError::io),
+					_ => self.serialize_union_unnamed(
+						union,
+						UnionVariantLookupKey::UnitVariant,
+						|ser| ser.serialize_unit_variant(name, variant_index, variant),
+					),
+				}
 			}
 			_ => Err(SerError::custom(format_args!(
 				"Could not serialize unit variant to {:?}",
